@@ -8,7 +8,7 @@ import (
 	"fmt"
 	"image"
 
-	"golang.org/x/image/vp8"
+	vp8 "github.com/deepteams/webp/verifharness/ref/xvp8"
 	"golang.org/x/image/vp8l"
 	xwebp "golang.org/x/image/webp"
 )
@@ -36,7 +36,8 @@ func tight(m *image.YCbCr) *YUV {
 	return out
 }
 
-// DecodeVP8 decodes a raw VP8 key frame.
+// DecodeVP8 decodes a raw VP8 key frame with the vendored x/image/vp8 (inverse DCT widened to
+// int64, see ref/xvp8/idct.go; otherwise upstream).
 func DecodeVP8(bs []byte) (y *YUV, err error) {
 	defer func() {
 		if r := recover(); r != nil {
